@@ -19,7 +19,7 @@ def main():
     for fn in ("patch.diff", "demo.py", "meta.json"):
         shutil.copy(os.path.join(src, fn), os.path.join(dst, fn))
     meta = json.load(open(os.path.join(dst, "meta.json")))
-    meta["round"] = int(os.environ.get("SEED_ROUND", "5"))
+    meta["round"] = int(os.environ.get("SEED_ROUND", "6"))
     json.dump(meta, open(os.path.join(dst, "meta.json"), "w"), indent=1)
     env = dict(os.environ, PATH="/venv/bin:" + os.environ["PATH"])
     r = subprocess.run([sys.executable, os.path.join(VERIF, "harness", "seedtest.py"), dst, "--tests"] + extra,
